@@ -83,7 +83,7 @@ def conc_stage(tier):
         d = {}
     races = racelib.parse_reports(rlog)
     for sig, cnt in sorted(races.items()):
-        outcome.report(sig, dict(family="race", signature=sig, count=cnt, note="Go race detector report while running 'verifdrv-race cache conc'"))
+        outcome.report(sig, dict(family="race", signature=sig, count=cnt, report=racelib.REPORTS.get(sig, ""), note="Go race detector report while running 'verifdrv-race cache conc'"))
     files = sorted(os.path.join(tr, f) for f in os.listdir(tr) if f.endswith(".ndjson")) if os.path.isdir(tr) else []
     stats, rejs = vlib.validate_traces("CacheConcTrace.tla", "CacheConcTrace.cfg", files, os.path.join(work, "val"), lambda e: True)
     for r in rejs:
